@@ -77,7 +77,7 @@ int __wrap_munmap(void *a, size_t l) { int r; PRE(); r = __real_munmap(a, l); PO
 /* ------------------------------------------------------------------ worker */
 static void worker_main(int sock)
 {
-    PSemaphore *sem[4] = {0}; PShm *shm[4] = {0}; Cmd c; Rep r;
+    PSemaphore *sem[4] = {0}; PShm *shm[4] = {0}; int shm_ro[4] = {0}; Cmd c; Rep r;
     wsock = sock;
     signal(SIGBUS, SIG_DFL); signal(SIGSEGV, SIG_DFL);
     while (read(sock, &c, sizeof c) == (ssize_t)sizeof c) {
@@ -88,10 +88,10 @@ static void worker_main(int sock)
         case C_SREL: r.res = p_semaphore_release(sem[c.slot], NULL); break;
         case C_SOWN: p_semaphore_take_ownership(sem[c.slot]); r.res = 1; break;
         case C_SFREE: p_semaphore_free(sem[c.slot]); sem[c.slot] = NULL; r.res = 1; break;
-        case C_MNEW: shm[c.slot] = p_shm_new(uname[c.name], (psize)c.val, P_SHM_ACCESS_READWRITE, NULL); r.res = shm[c.slot] != NULL; r.aux = shm[c.slot] ? (long)p_shm_get_size(shm[c.slot]) : errno; break;
+        case C_MNEW: shm_ro[c.slot] = c.mode; shm[c.slot] = p_shm_new(uname[c.name], (psize)c.val, c.mode ? P_SHM_ACCESS_READONLY : P_SHM_ACCESS_READWRITE, NULL); r.res = shm[c.slot] != NULL; r.aux = shm[c.slot] ? (long)p_shm_get_size(shm[c.slot]) : errno; break;
         case C_MWRITE: ((volatile unsigned char *)p_shm_get_address(shm[c.slot]))[c.off] = (unsigned char)c.val; r.res = 1; break;
         case C_MREAD: r.res = ((volatile unsigned char *)p_shm_get_address(shm[c.slot]))[c.off]; break;
-        case C_MTOUCH: { volatile unsigned char *p = p_shm_get_address(shm[c.slot]); psize n = p_shm_get_size(shm[c.slot]); unsigned char v; r.aux = (long)n; v = p[n - 1]; p[n - 1] = v; v = p[n / 2]; p[n / 2] = v; r.res = 1; break; }
+        case C_MTOUCH: { volatile unsigned char *p = p_shm_get_address(shm[c.slot]); psize n = p_shm_get_size(shm[c.slot]); unsigned char v; r.aux = (long)n; v = p[n - 1]; if (!shm_ro[c.slot]) p[n - 1] = v; v = p[n / 2]; if (!shm_ro[c.slot]) p[n / 2] = v; r.res = 1; break; }
         case C_MSIZE: r.res = (long)p_shm_get_size(shm[c.slot]); break;
         case C_MLOCK: r.res = p_shm_lock(shm[c.slot], NULL); break;
         case C_MUNLOCK: r.res = p_shm_unlock(shm[c.slot], NULL); break;
@@ -301,7 +301,7 @@ static void srun(const SOp *h, int n, int final_checks)
 /* ================================================================== shared memory histories */
 static const int SIZES[] = {64, 4096, 8192};
 static const int OFFS[] = {0, 31, 63};
-typedef struct { int linked[2]; int size[MAXGEN]; unsigned char cell[MAXGEN][3]; int holder[MAXGEN]; int ngen; int open[NSLOT], name[NSLOT], gen[NSLOT], owner[NSLOT], req[NSLOT]; int pending; unsigned char nextpat; } MRef;
+typedef struct { int linked[2]; int size[MAXGEN]; unsigned char cell[MAXGEN][3]; int holder[MAXGEN]; int ngen; int open[NSLOT], name[NSLOT], gen[NSLOT], owner[NSLOT], req[NSLOT], ro[NSLOT]; int pending; unsigned char nextpat; } MRef;   /* ro: slot 2 opens an existing segment read-only */
 typedef struct { unsigned char op, slot, name, val; } MOp;   /* op: 0 new(size idx) 1 write(off idx) 2 read(off idx) 3 lock 4 unlock 5 own 6 free */
 static const char MOPC[] = "nwrlugf";
 static void mref_init(MRef *r) { int i; memset(r, 0, sizeof *r); r->linked[0] = r->linked[1] = -1; r->pending = -1; r->nextpat = 1; for (i = 0; i < MAXGEN; i++) r->holder[i] = -1; }
@@ -310,7 +310,7 @@ static void mcanon(const MRef *r, char *buf, size_t sz)
     int map[MAXGEN], nm = 0, i, inv[MAXGEN]; size_t o = 0;
     for (i = 0; i < MAXGEN; i++) { map[i] = -1; inv[i] = -1; }
     for (i = 0; i < 2; i++) o += snprintf(buf + o, sz - o, "L%d,", GID(r->linked[i]));
-    for (i = 0; i < NSLOT; i++) { if (r->open[i]) o += snprintf(buf + o, sz - o, "S%d.%d.%d.%d,", r->name[i], GID(r->gen[i]), r->owner[i], r->req[i]); else o += snprintf(buf + o, sz - o, "S-,"); }
+    for (i = 0; i < NSLOT; i++) { if (r->open[i]) o += snprintf(buf + o, sz - o, "S%d.%d.%d.%d.%d,", r->name[i], GID(r->gen[i]), r->owner[i], r->req[i], r->ro[i]); else o += snprintf(buf + o, sz - o, "S-,"); }
     for (i = 0; i < r->ngen; i++) if (map[i] >= 0) inv[map[i]] = i;
     for (i = 0; i < nm; i++) { int g = inv[i]; o += snprintf(buf + o, sz - o, "g%d.%d%d%d.%d,", r->size[g], r->cell[g][0] != 0, r->cell[g][1] != 0, r->cell[g][2] != 0, r->holder[g]); }
     snprintf(buf + o, sz - o, "P%d", r->pending);
@@ -323,7 +323,8 @@ static int mop_valid(const MRef *r, MOp op)
     if (!r->open[op.slot]) return 0;
     g = r->gen[op.slot];
     switch (op.op) {
-    case 1: case 2: return 1;
+    case 1: return !r->ro[op.slot];
+    case 2: return 1;
     case 3: return r->holder[g] != op.slot && (r->holder[g] < 0 || r->pending < 0);
     case 4: return r->holder[g] == op.slot;
     case 5: return !r->owner[op.slot];
@@ -350,13 +351,19 @@ static void mrun(const MOp *h, int n, int final_checks)
         n_steps++;
         if (op.op == 0) {
             int fresh = r.linked[op.name] < 0, sz = SIZES[op.val];
-            c.val = sz;
+            long obj_before = name_linked(op.name, 1) ? last_stat_size : -1;
+            c.val = sz; c.mode = (!fresh && op.slot == 2);
             k = xsend(w, &c, &rep, 5000);
             if (k != 'D') { viol("C07", "shm/new/no-answer", "step %d new: %s", i + 1, died(w)); break; }
             if (!rep.res) { snprintf(sg, sizeof sg, "shm/new-failed/%s", fresh ? "fresh-name" : "existing-name"); viol("C07", sg, "step %d: p_shm_new(name %d, size %d) returned NULL (errno %ld) on %s", i + 1, op.name, sz, rep.aux, fresh ? "a name that does not exist" : "an existing segment"); break; }
             if (fresh) { g = r.ngen++; r.size[g] = sz; memset(r.cell[g], 0, 3); r.holder[g] = -1; r.linked[op.name] = g; r.owner[op.slot] = 1; if (rep.aux != sz) { viol("C07", "shm/creator-size", "step %d: creator asked for %d bytes, p_shm_get_size reports %ld", i + 1, sz, rep.aux); break; } }
             else { g = r.linked[op.name]; r.owner[op.slot] = 0; if (sz == r.size[g] && rep.aux != sz) { viol("C07", "shm/same-size-argument-different-size", "step %d: opened an existing segment with the same size argument %d but p_shm_get_size reports %ld", i + 1, sz, rep.aux); break; } }
-            r.open[op.slot] = 1; r.name[op.slot] = op.name; r.gen[op.slot] = g; r.req[op.slot] = op.val;
+            /* opening an existing segment leaves the object itself alone: the other handles of the name keep every byte below their size */
+            if (!fresh && obj_before >= 0 && name_linked(op.name, 1) && last_stat_size != obj_before) { viol("C07", "shm/open-resized-segment", "step %d: p_shm_new(name %d, size %d) on an existing segment changed the size of the object from %ld to %ld bytes under the handles that are already open", i + 1, op.name, sz, obj_before, last_stat_size); break; }
+            if (!fresh) { int s2; for (s2 = 0; s2 < NSLOT && !fail_flag; s2++) if (s2 != op.slot && r.open[s2] && r.gen[s2] == g && !wbusy[s2 % 2]) { Rep r3; memset(&c, 0, sizeof c); c.op = C_MTOUCH; c.slot = s2;
+                if (xsend(s2 % 2, &c, &r3, 5000) != 'D') viol("C07", "shm/byte-below-size-not-accessible/other-handle", "step %d: after slot %d opened the segment with size %d, touching the last byte below p_shm_get_size of slot %d killed the process (%s)", i + 1, op.slot, sz, s2, died(s2 % 2)); }
+                if (fail_flag) break; memset(&c, 0, sizeof c); c.op = CM[op.op]; c.slot = op.slot; c.name = op.name; }
+            r.open[op.slot] = 1; r.name[op.slot] = op.name; r.gen[op.slot] = g; r.req[op.slot] = op.val; r.ro[op.slot] = (!fresh && op.slot == 2);
             if (name_linked(op.name, 1) && rep.aux > last_stat_size) { viol("C07", "shm/size-exceeds-segment", "step %d: p_shm_get_size reports %ld bytes but the segment object holds %ld: bytes below the reported size are not backed by the segment", i + 1, rep.aux, last_stat_size); break; }
             /* every byte below p_shm_get_size is accessible: touch the last and the middle byte under the real MMU */
             memset(&c, 0, sizeof c); c.op = C_MTOUCH; c.slot = op.slot;
@@ -437,7 +444,7 @@ static void mref_replay(MRef *r, const MOp *h, int n)
     for (i = 0; i < n; i++) {
         MOp op = h[i]; int g = r->open[op.slot] ? r->gen[op.slot] : -1;
         switch (op.op) {
-        case 0: if (r->linked[op.name] < 0) { g = r->ngen++; r->size[g] = SIZES[op.val]; memset(r->cell[g], 0, 3); r->holder[g] = -1; r->linked[op.name] = g; r->owner[op.slot] = 1; } else { g = r->linked[op.name]; r->owner[op.slot] = 0; }
+        case 0: if (r->linked[op.name] < 0) { g = r->ngen++; r->size[g] = SIZES[op.val]; memset(r->cell[g], 0, 3); r->holder[g] = -1; r->linked[op.name] = g; r->owner[op.slot] = 1; r->ro[op.slot] = 0; } else { g = r->linked[op.name]; r->owner[op.slot] = 0; r->ro[op.slot] = op.slot == 2; }
                 r->open[op.slot] = 1; r->name[op.slot] = op.name; r->gen[op.slot] = g; r->req[op.slot] = op.val; break;
         case 1: r->cell[g][op.val] = r->nextpat; r->nextpat = r->nextpat == 250 ? 1 : r->nextpat + 1; break;
         case 3: if (r->holder[g] >= 0) r->pending = op.slot; else r->holder[g] = op.slot; break;
